@@ -92,6 +92,9 @@ impl World for SemaphoreWorld {
     fn id(&self) -> u8 {
         2
     }
+    fn shared_wakers(&self) -> bool {
+        true
+    }
     fn name(&self) -> &'static str {
         "semaphore"
     }
@@ -104,15 +107,15 @@ impl World for SemaphoreWorld {
         for flavour in [FL_LOCAL, FL_SYNC, FL_CHECKED, FL_SHARED, FL_SHARED_CHECKED] {
             for mode in [0u8, 1] {
                 for x in 0..=3u8 {
-                    v.push(Cfg { flavour, mode, x, y: 12, k });
+                    v.push(Cfg { flavour, mode, x, y: 12, k, sw: 0 });
                 }
             }
         }
         // wide request domain (mode bit 1): requests beyond 32 bits next to the small ones
         for flavour in [FL_LOCAL, FL_SHARED_CHECKED] {
             for mode in [2u8, 3] {
-                v.push(Cfg { flavour, mode, x: 3, y: 12, k });
-                v.push(Cfg { flavour, mode, x: 4, y: 12, k });
+                v.push(Cfg { flavour, mode, x: 3, y: 12, k, sw: 0 });
+                v.push(Cfg { flavour, mode, x: 4, y: 12, k, sw: 0 });
             }
         }
         v
@@ -121,17 +124,17 @@ impl World for SemaphoreWorld {
         let mut v = Vec::new();
         for mode in [0u8, 1] {
             if tier == Tier::Quick {
-                v.push((Cfg { flavour: FL_CHECKED, mode, x: 0, y: 2, k: 2 }, 64));
-                v.push((Cfg { flavour: FL_CHECKED, mode, x: 1, y: 3, k: 2 }, 64));
-                v.push((Cfg { flavour: FL_CHECKED, mode: mode | 2, x: 2, y: 2, k: 2 }, 5));
-                v.push((Cfg { flavour: FL_CHECKED, mode: mode | 2, x: 4, y: 2, k: 2 }, 5));
+                v.push((Cfg { flavour: FL_CHECKED, mode, x: 0, y: 2, k: 2, sw: 0 }, 64));
+                v.push((Cfg { flavour: FL_CHECKED, mode, x: 1, y: 3, k: 2, sw: 0 }, 64));
+                v.push((Cfg { flavour: FL_CHECKED, mode: mode | 2, x: 2, y: 2, k: 2, sw: 0 }, 5));
+                v.push((Cfg { flavour: FL_CHECKED, mode: mode | 2, x: 4, y: 2, k: 2, sw: 0 }, 5));
             } else {
                 for (x, y) in [(0u8, 3u8), (1, 3), (2, 3), (3, 4)] {
-                    v.push((Cfg { flavour: FL_CHECKED, mode, x, y, k: 3 }, 200));
+                    v.push((Cfg { flavour: FL_CHECKED, mode, x, y, k: 3, sw: 0 }, 200));
                 }
-                v.push((Cfg { flavour: FL_SHARED_CHECKED, mode, x: 1, y: 3, k: 2 }, 200));
-                v.push((Cfg { flavour: FL_CHECKED, mode: mode | 2, x: 2, y: 3, k: 2 }, 7));
-                v.push((Cfg { flavour: FL_CHECKED, mode: mode | 2, x: 4, y: 3, k: 2 }, 7));
+                v.push((Cfg { flavour: FL_SHARED_CHECKED, mode, x: 1, y: 3, k: 2, sw: 0 }, 200));
+                v.push((Cfg { flavour: FL_CHECKED, mode: mode | 2, x: 2, y: 3, k: 2, sw: 0 }, 7));
+                v.push((Cfg { flavour: FL_CHECKED, mode: mode | 2, x: 4, y: 3, k: 2, sw: 0 }, 7));
             }
         }
         v
@@ -270,6 +273,7 @@ fn next_where<F>(slots: &[Slot<F>], start: u8, pred: impl Fn(&Slot<F>) -> bool) 
 
 fn run_m<M: RawMutex>(cfg: &Cfg, ops: &[Op], run: &mut Run) {
     tls::reset_history();
+    tls::set_shared_b(cfg.sw == 1);
     let fair = cfg.mode & 1 == 1;
     let shared = cfg.flavour >= FL_SHARED;
     let initial = initial_permits(cfg);
@@ -622,7 +626,7 @@ fn run_m<M: RawMutex>(cfg: &Cfg, ops: &[Op], run: &mut Run) {
 #[allow(clippy::too_many_arguments)]
 fn monitors<M: RawMutex>(
     sem: &Sem<M>,
-    _fair: bool,
+    fair: bool,
     slots: &[Slot<SemFut<'_, M>>],
     ledger: usize,
     released_total: usize,
@@ -646,7 +650,12 @@ fn monitors<M: RawMutex>(
     // C06: the longest waiting acquirer is never stranded
     let pend: Vec<usize> = (0..slots.len()).filter(|&i| slots[i].pending()).collect();
     if !pend.is_empty() && !pend.iter().any(|&i| slots[i].woken()) {
-        let head = *pend.iter().min_by_key(|&&i| slots[i].arrival).unwrap();
+        // With a waker shared by all slots, "woken through the waker of its latest poll" no longer
+        // says which future the semaphore notified, so in unfair mode (where a notified future
+        // that re-queues starts a new wait) the harness cannot tell who waits longest. Then the
+        // check is made for the candidate that is hardest to satisfy: whoever the head is, it fits.
+        let ambiguous = !fair && tls::shared_b();
+        let head = if ambiguous { *pend.iter().max_by_key(|&&i| slots[i].num).unwrap() } else { *pend.iter().min_by_key(|&&i| slots[i].arrival).unwrap() };
         let req = slots[head].num as usize;
         if req <= permits {
             run.violate(
